@@ -851,6 +851,24 @@ func (e *SpecEnv) callExpr(n *ast.CallExpr) SVal {
 			}
 			ghostReads++
 			return SVal{Select(e.st.getHeap(sortOf(T)), ref), T}
+		case "call":
+			// call(f, a...): the result of applying function value f. It is an uninterpreted application; when f is a
+			// known function value (a closure, a bound method, a function) whose function has a contract, that
+			// contract - stated for all arguments - is added to the path's facts.
+			f := e.eval(n.Args[0])
+			sig, ok := f.Ty.Underlying().(*types.Signature)
+			if !ok || sig.Results().Len() != 1 {
+				e.fail(n, "call: a function value with one result is needed")
+			}
+			var args []*Term
+			for _, a := range n.Args[1:] {
+				args = append(args, e.eval(a).T)
+			}
+			t := fvApp(f.T, args, sig)
+			if f.T.IsInt() {
+				e.v.linkFuncValue(e.st, f.T.Int64(), sig)
+			}
+			return SVal{t, sig.Results().At(0).Type()}
 		case "rangeseen", "rangekey":
 			// the innermost running iteration over a map of unknown contents: rangeseen(k) - key k has been
 			// handed out (the current one included); rangekey() - the key of the current iteration
@@ -1102,4 +1120,99 @@ func mentions(t, v *Term) bool {
 		}
 	}
 	return false
+}
+
+// fvApp: the uninterpreted application of a function value.
+func fvApp(f *Term, args []*Term, sig *types.Signature) *Term {
+	name := "fv"
+	for i := 0; i < sig.Params().Len(); i++ {
+		name += "$" + sortOf(sig.Params().At(i).Type()).Name
+	}
+	ret := sortOf(sig.Results().At(0).Type())
+	name += "$$" + ret.Name
+	return App(sanitize(name), ret, append([]*Term{f}, args...)...)
+}
+
+// funcValueContract resolves a function value to the function whose contract describes it and the values of the
+// contract's leading parameters that the value has already fixed (the receiver of a bound method).
+func (v *Verifier) funcValueContract(id int64) (*Contract, *ssa.Function, []*Term) {
+	ci := closures[id]
+	if ci == nil {
+		return nil, nil, nil
+	}
+	fn := ci.fn
+	if strings.HasPrefix(fn.Synthetic, "bound method wrapper") && len(ci.bindings) == 1 {
+		if obj, ok := fn.Object().(*types.Func); ok {
+			if m := v.P.Prog.FuncValue(obj); m != nil {
+				if c := v.contractFor(m); c != nil {
+					return c, m, ci.bindings
+				}
+			}
+		}
+		return nil, nil, nil
+	}
+	if len(ci.bindings) == 0 {
+		if c := v.contractFor(fn); c != nil {
+			return c, fn, nil
+		}
+	}
+	return nil, fn, nil
+}
+
+// closureFacts evaluates the contract of function value id at the given arguments, its result being res:
+// (requires, ensures). ok is false when the value has no contract to speak of.
+func (v *Verifier) closureFacts(st *State, id int64, args []*Term, res *Term) (pre, post *Term, ok bool) {
+	c, fn, fixed := v.funcValueContract(id)
+	if c == nil {
+		return nil, nil, false
+	}
+	env := &SpecEnv{v: v, st: st, pkg: c.Pkg.Types, vars: map[string]SVal{}}
+	all := append(append([]*Term{}, fixed...), args...)
+	if len(all) != len(fn.Params) {
+		return nil, nil, false
+	}
+	for i, p := range fn.Params {
+		env.vars[p.Name()] = SVal{all[i], p.Type()}
+	}
+	if len(c.Results) == 1 {
+		env.vars[c.Results[0]] = SVal{res, fn.Signature.Results().At(0).Type()}
+	}
+	var pres, posts []*Term
+	for _, r := range c.Requires {
+		pres = append(pres, env.evalBool(r.Expr))
+	}
+	for _, r := range c.Ensures {
+		posts = append(posts, env.evalBool(r.Expr))
+	}
+	return And(pres...), And(posts...), true
+}
+
+// linkFuncValue states, once per path, what is known about a function value of one parameter for all arguments.
+func (v *Verifier) linkFuncValue(st *State, id int64, sig *types.Signature) {
+	if st.fvLinked[id] {
+		return
+	}
+	if st.fvLinked == nil {
+		st.fvLinked = map[int64]bool{}
+	}
+	st.fvLinked[id] = true
+	ci := closures[id]
+	if ci == nil || sig.Params().Len() != 1 {
+		return
+	}
+	bv := BVar("x$fv", sortOf(sig.Params().At(0).Type()))
+	app := fvApp(IntLit(id), []*Term{bv}, sig)
+	if ci.fn.String() == "unicode.IsSpace" {
+		st.assume(Forall([]*Term{bv}, Eq(app, App("is_space", SBool, bv))))
+		st.assume(Not(App("is_space", SBool, IntLit(-1))))
+		v.assumeNote("unicode.IsSpace as a function value: is_space, false at -1")
+		return
+	}
+	pre, post, ok := v.closureFacts(st, id, []*Term{bv}, app)
+	if !ok {
+		v.assumeNote("function value " + ci.fn.String() + " has no contract: nothing is known about its results")
+		return
+	}
+	inv := And(typeInv(bv, sig.Params().At(0).Type(), 0)...)
+	st.assume(Forall([]*Term{bv}, Implies(And(inv, pre), post)))
 }
